@@ -108,6 +108,29 @@ def compile_mds(text_bytes, with_pcm):
     return data
 
 
+def compile_mds_wav(nbytes):
+    import struct
+    key = "wav%d" % nbytes
+    with _lock:
+        if key in _mds_cache:
+            return _mds_cache[key]
+    d = os.path.join(base_dir(), "mds_" + key)
+    os.makedirs(d, exist_ok=True)
+    data = bytes((i * 7 + 3) % 256 for i in range(nbytes))
+    wav = b"RIFF" + struct.pack("<I", 36 + nbytes) + b"WAVEfmt " + struct.pack("<IHHIIHH", 16, 1, 1, 8000, 8000, 1, 8) + b"data" + struct.pack("<I", nbytes) + data
+    with open(os.path.join(d, "odd.wav"), "wb") as f:
+        f.write(wav + (b"\0" if nbytes % 2 else b""))
+    with open(os.path.join(d, "in.mml"), "wb") as f:
+        f.write((TAGS + "@1 pcm odd.wav\nF @1 o4 l4 c\n").encode())
+    tools = core.build_tools()
+    subprocess.run([tools["mmlc"], "in.mml", "-f", "mds", "-o", "out.mds"], cwd=d, capture_output=True, env=tool_env(), timeout=120)
+    p = os.path.join(d, "out.mds")
+    out = open(p, "rb").read() if os.path.exists(p) else b""
+    with _lock:
+        _mds_cache[key] = out
+    return out
+
+
 def sample_text(name, tagged):
     with open(os.path.join(REPO, "sample", name + ".mml"), "rb") as f:
         t = f.read()
@@ -128,6 +151,8 @@ def content_bytes(cid):
         return compile_mds(sample_text(v, True), True)
     if k == "r":            # raw bytes (hex)
         return bytes.fromhex(v)
+    if k == "o":            # the .mds the current mmlc compiles from a song with one 8-bit mono sample of <v> bytes
+        return compile_mds_wav(int(v))
     raise ValueError("content id " + cid)
 
 
@@ -339,6 +364,12 @@ BAD_SONGS = [
     ("star-line", "*\n"),                                   # std::invalid_argument, not InputError (D12)
     ("garbage", b"\xff\xfe\x00\x01RIFF\x80\x81 [[[ ]]] @@@ \n\n*x"),
     ("optimizer-throws", TAGS + "A v1[]2v1[]2v1[]2v1[]2v1[]2\n"),   # D1: valid song, -O throws InputError
+    # input errors raised WITHOUT a source position (InputError(nullptr, ...)): definitions, sample files, tags
+    ("fm-too-few-params", TAGS + "@1 fm 3 0\nA @1 o4 c\n"),
+    ("missing-sample-file", TAGS + "@1 pcm nothere.wav\nF @1 o4 c\n"),
+    ("2op-missing-base", TAGS + "@2 2op 9 1 1 1 1 0\nA @2 o4 c\n"),
+    ("instrument-without-type", TAGS + "@1\nA @1 o4 c\n"),
+    ("tag-not-utf8", b"#title \xff\xfe\nA o4 c\n"),
 ]
 PATHS = [("plain", "song.mml"), ("nodot", "nodot"), ("dirdot-noext", "dir.v1/song"), ("dirdot-ext", "dir.v1/song.mml"),
          ("subdir", "sub/s.mml"), ("dotslash", "./song.mml"), ("hidden", "sub/.hidden"), ("multi-dot", "a.b.c.mml"),
@@ -426,7 +457,25 @@ def scenarios(rng, tier):
     S.append(mmlc_scen([("o", 0, "song.mml"), ("i", "song.mml")], [("song.mml", g(OK1))], ["corpus", "output-overwrites-input"], "corpus"))
     S.append(mmlc_scen([], [], ["corpus", "no-input"], "corpus"))
     S.append(mmlc_scen([("O", 0), ("v",)], [], ["corpus", "no-input"], "corpus"))
+    # hand-assembled .mds inputs for mdslink whose payload size is odd (RIFF pads to even) / even
+    from checks import c10 as _c10
+    for nbytes in (101, 100, 1, 33):
+        raw = _c10.mds(seq=_c10.SEQ0, dblk=[(b"pcmh", 0, _c10.sample(0, 0, nbytes))], pcmd=_c10.fill(nbytes, 3))
+        S.append(dict(tool="mdslink", args=["odd.mds"], items="i:" + hx("odd.mds"), fs=[("odd.mds", "r" + raw.hex())],
+                      tags=["corpus", "mdslink", "in:mds", "pcm-bytes-%d" % nbytes], family="corpus"))
+        if len(raw) % 2:
+            # as RIFF::to_bytes writes it: the pad byte after an odd payload is in the file but not in the size field
+            S.append(dict(tool="mdslink", args=["pad.mds"], items="i:" + hx("pad.mds"), fs=[("pad.mds", "r" + (raw + b"\0").hex())],
+                          tags=["corpus", "mdslink", "in:mds", "pcm-bytes-%d" % nbytes, "riff-pad-byte"], family="corpus"))
+    # the same through the real converter: a song whose only sample has an odd / even number of bytes
+    # (RIFF::to_bytes leaves the pad byte after an odd payload out of the size field)
+    for nbytes in (101, 100):
+        S.append(dict(tool="mdslink", args=["conv.mds"], items="i:" + hx("conv.mds"), fs=[("conv.mds", "o%d" % nbytes)],
+                      tags=["corpus", "mdslink", "in:mds", "converted", "pcm-bytes-%d" % nbytes], family="corpus"))
     for name, text in BAD_SONGS:
+        for fmt in ((None, "mds", "vgm") if name in ("fm-too-few-params", "missing-sample-file", "2op-missing-base", "instrument-without-type", "tag-not-utf8") else (None,)):
+            if fmt:
+                S.append(mmlc_scen([("i", "bad.mml"), ("f", 0, fmt)], [("bad.mml", g(text))], ["corpus", "rejected:" + name, "fmt-" + fmt], "corpus"))
         S.append(mmlc_scen([("i", "bad.mml")] + ([("O", 0)] if name == "optimizer-throws" else []), [("bad.mml", g(text))], ["corpus", "rejected:" + name], "corpus"))
         S.append(dict(tool="mdslink", args=["bad.mml"], items="i:" + hx("bad.mml"), fs=[("bad.mml", g(text))], tags=["corpus", "rejected:" + name, "mdslink"], family="corpus"))
     # ---------------- bounded-exhaustive: path x format x -o x -O x position of the input (small valid song)
